@@ -87,11 +87,13 @@ def showEnc : NameStr.Encoding → String
   | .macRoman => "MacRoman"
   | .unknown => "Unknown"
 
-/-- `ns <platform> <encoding> <code points…|->`: `<Encoding> <compute_length|trap> <string bytes|trap> | <decoded chars>` -/
+/-- `ns <platform> <encoding> <code points…|->`: `<Encoding> rejected` when
+`validate_string_data` reports, else `<Encoding> <compute_length|trap> <string bytes|trap> | <decoded chars>` -/
 def ns (platform encoding : Nat) (cps : List Nat) : String :=
   let enc := NameStr.Encoding.new platform encoding
   -- `NameStringAndLenWriter::write_into` computes the length first, then the string object is written: either panic
   -- aborts the compilation
+  if !NameStr.validateString enc cps then s!"{showEnc enc} rejected" else
   match NameStr.computeLength enc cps, NameStr.encodeString enc cps with
   | some len, some bs => s!"{showEnc enc} {len} {toHex bs} | {joinInts ((NameStr.decodeString enc bs).map Int.ofNat)}"
   | _, _ => s!"{showEnc enc} trap trap | -"
